@@ -28,14 +28,21 @@ ZOO = [VInf, VNegInf, VNan, VFloat(200000), VInt(2000), VInt(-2000), VInt(3000),
        {"k": "uuid", "ver": 0, "id": 0}] + \
       [VObj(c, [], []) for c in ("tuple0", "tuple12", "set1", "frozenset1", "bytearray_ab", "Decimal1",
                                  "Fraction12", "complex1", "range3", "object_a", "uuidlike", "type_int",
-                                 "notimplemented")] + \
+                                 "notimplemented", "set_mixed", "frozenset_mixed", "generator", "lock",
+                                 "uncopyable")] + \
       [VObj("MyInt", ["int"], [VInt(1)]), VObj("MyFloat", ["float"], [VFloat(25)]),
        VObj("MyStr", ["str"], [VStr([97, 98])]), VObj("MyBytes", ["bytes"], [VBytes([97])]),
        VObj("MyList", ["list"], [VList([VInt(1)])]),
        VObj("MyDict", ["dict"], [VDict([KV(VStr([97]), VInt(1))])]),
        VObj("OrderedDict", ["dict"], [VDict([KV(VStr([97]), VInt(1))])])]
 ZOO_KEYS = [VNan, VObj("tuple12", [], []), VObj("frozenset1", [], []), VInt(2000), VNone,
-            VObj("object_a", [], []), VBool(True), VFloat(50), VBytes([97])]
+            VObj("object_a", [], []), VBool(True), VFloat(50), VBytes([97]),
+            VObj("frozenset_mixed", [], []), VObj("uncopyable", [], [])]
+# members that can be neither copied nor pickled, or whose parts cannot be ordered: wherever a
+# container is reported as a whole (missing / extra key or element) one of them may sit next to
+# the reported defect
+HOSTILE_MEMBERS = [VObj("generator", [], []), VObj("lock", [], []), VObj("uncopyable", [], []),
+                   VObj("set_mixed", [], [])]
 
 
 def local(v):
@@ -99,6 +106,12 @@ def mutants(v, repl, keys):
         if it:
             out.append(VList(it + [it[-1]]))
         out.append(VList([VNone] + it))
+        for hm in HOSTILE_MEMBERS:
+            if hm in repl:
+                out.append(VList(it + [hm]))                       # an extra element that is hostile itself
+                if it:
+                    out.append(VList(it[:-1] + [hm, VNone]))       # ... or sits before the extra one
+                    out.append(VList([hm] + it[1:-1]))             # ... or next to a missing one
         if len(it) >= 2 and it[0] != it[1]:
             out.append(VList([it[1], it[0]] + it[2:]))
         for i in range(len(it)):
@@ -117,6 +130,11 @@ def mutants(v, repl, keys):
                     out.append(VDict(ps + [KV(x, VNone), KV(y, VNone)]))
         if VNan in keys:
             out.append(VDict(ps + [KV(VNan, VNone), KV(VNan, VNone)]))
+        for hm in HOSTILE_MEMBERS:
+            if hm in repl and free:
+                out.append(VDict(ps + [KV(free[0], hm)]))          # the value under an extra key
+                if ps:
+                    out.append(VDict(ps[:-1] + [KV(free[0], hm)]))  # a key is missing and another is extra
         for i in range(len(ps)):
             for m in mutants(ps[i]["val"], repl, keys):
                 out.append(VDict(ps[:i] + [KV(ps[i]["key"], m)] + ps[i + 1:]))
